@@ -319,20 +319,20 @@ H[:] = [x for x in H if not (x["name"].startswith("union_step_") and True)]
 # ------------------------------------------------------------------ quick tier: curated per property
 # (the thorough tier of a property runs every harness that lists it)
 QUICK = {
-    "C01": ["obs_get_n4", "entry_obs_n3", "insert_ret_n2", "remove_ret_n3", "rkt_ret_n3", "clear_n3", "hist2_1"],
-    "C02": ["obs_lpm_n3", "obs_lpm_n4", "obs_lpm_mut_n4", "obs_cover_n3"],
+    "C01": ["obs_get_n4", "entry_obs_n3", "insert_ret_n2", "remove_ret_n3", "remove_ret_n4", "rkt_ret_n3", "rmchildren_ret_n3", "clear_n3", "hist2_1", "obs_get_mut_n4"],
+    "C02": ["obs_lpm_n3", "obs_lpm_n4", "obs_lpm_mut_n4", "obs_cover_n3", "cover_chain_n4"],
     "C03": ["whole_iter_n3", "whole_iter_mut_n3", "whole_into_iter_n3", "step_iter_n4", "step_iter_mut_n4"],
     "C04": ["insert_len_n2", "remove_len_n3", "rkt_len_n3", "clear_n3", "entry_top0_len_n2", "entry_handle1_len_n2", "clone_n3",
             "view_access[23]_n3", "occ_seq_plain_n2"],
     "C05": ["union_init_ro_n2", "union_init_(ro|mut)_n3", "union_helper0_n[34]", "union_whole_n1"],
     "C06": ["inter_init_(ro|mut)_n3", "inter_step_ro_n2", "inter_helper[012]_n4"],
-    "C07": ["(diff|covdiff)_init_(ro|mut)_n3", "diff_helper[012]_n4"],
+    "C07": ["(diff|covdiff)_init_(ro|mut)_n3", "diff_helper[012]_n4", "covdiff_stepk1_ro_n2"],
     "C08": ["union_init_ro_n[23]", "diff_init_(ro|mut)_n3", "union_whole_n1"],
     "C09": ["obs_spm_n3", "obs_spm_n4", "obs_cover_n3", "cover_chain_n4"],
-    "C10": ["children_init[012]_n4", "step_iter_n4", "rmchildren_ret_n3", "retain_lite_n2"],
-    "C11": ["view_at_(ro|mut)_n4", "view_nav_(ro|mut)_n4", "view_find[03]_ro_n4", "view_access[02]_n3"],
+    "C10": ["children_init[012]_n4", "step_iter_n4", "rmchildren_ret_n3", "rmchildren_slots_n3", "retain_lite_n2", "retain_n2"],
+    "C11": ["view_at_(ro|mut)_n4", "view_nav_(ro|mut)_n4", "view_find[03]_(ro|mut)_n4", "view_access[0-3]_n3"],
     "C12": ["view_find[0-3]_(ro|mut)_n4"],
-    "C13": ["obs_get_mut_n4", "obs_lpm_mut_n4", "whole_iter_mut_n3", "step_iter_mut_n4", "view_access[02]_n3", "(union|inter|diff|covdiff)_init_mut_n3"],
+    "C13": ["obs_get_mut_n4", "obs_lpm_mut_n4", "whole_iter_mut_n3", "step_iter_mut_n4", "view_access[0-3]_n3", "(union|inter|diff|covdiff)_init_mut_n3", "inter_step_mut_n2"],
     "C14": ["whole_iter_mut_n3", "step_iter_mut_n4", "view_nav_mut_n4", "view_find[02]_mut_n4", "view_access0_n3", "inter_init_mut_n3", "obs_get_mut_n4"],
     "C15": ["insert_shape_n2", "remove_shape_n[34]", "rkt_shape_n3", "clear_n3", "entry_top0_shape_n2", "retain_lite_struct_n2", "canon_unique_n4"],
     "C16": ["insert_slots_n2", "remove_slots_n[34]", "rkt_slots_n3", "rmchildren_slots_n3", "clear_n3", "entry_handle1_slots_n2"],
